@@ -18,6 +18,8 @@ structure RotSt where
   lastImplSend : Nat × Nat := (0, 0)
   markIdx : Nat := 0
   nextFresh : List Nat := [0, 0]
+  keyDisplay : List Key := []            -- rotated-in key material in order of first installation (either side)
+  implKeys : List (Nat × Key) := []      -- spec state: the implementation's number of a key material ↦ the key exchange it came from
 
 def RotSt.show (st : RotSt) (k : Nat) : RotSt × String :=
   match st.display.idxOf? k with
@@ -31,6 +33,31 @@ def RotSt.describe (st : RotSt) (sender : Nat) (m : Msg) : RotSt × String :=
     | none => (st1, "-")
   let idx := st2.msgs.length
   ({ st2 with msgs := st2.msgs ++ [(sender, m)] }, s!"m{idx}:id={m.id}:p={p}:c={c}")
+
+/-- the model's number of the key installed by a rotation -/
+def RotSt.showKey (st : RotSt) (k : Key) : RotSt × String :=
+  match st.keyDisplay.idxOf? k with
+  | some i => (st, s!"k{i}")
+  | none => ({ st with keyDisplay := st.keyDisplay ++ [k] }, s!"k{st.keyDisplay.length}")
+
+/-- the implementation's key number in an observation token list such as `["5", "1", "k2"]` -/
+def implKeyNo (toks : List String) : Option Nat :=
+  (toks.find? (·.startsWith "k")).bind (fun t => (t.drop 1).toString.toNat?)
+
+/-- Spec on the key material installed by a rotation (C04: every rotation restarts the nonce sequence at a random value, so the rotated-in
+    keys must be separate keys — I3: distinct exchanges give distinct material; C07: both ends derive identical material from one exchange, L2).
+    `ki`: the implementation's number (by first appearance of the BYTES) of the installed key, `kref`: the exchange it belongs to. -/
+def RotSt.noteKey (st : RotSt) (ki : Option Nat) (kref : Key) : RotSt × String :=
+  match ki with
+  | none => (st, "-")
+  | some ki =>
+    match st.implKeys.find? (·.1 = ki) with
+    | some (_, k) => if k = kref then (st, "ok") else (st, "FAIL C04 two different key exchanges installed the same key material: the rotated-in keys are not separate keys")
+    | none =>
+      if st.implKeys.any (·.2 = kref) then (st, "FAIL C07 the two ends derived different key material from the same key exchange")
+      else ({ st with implKeys := st.implKeys ++ [(ki, kref)] }, "ok")
+
+def worst (a b : String) : String := if a.startsWith "FAIL" then a else if b.startsWith "FAIL" then b else if a = "ok" || b = "ok" then "ok" else "-"
 
 def initSide (initiator : Bool) (side : Nat) : Side :=
   { confirmed := none, pending := none, proposed := if initiator then some 0 else none,
@@ -58,8 +85,12 @@ def rotStep (st : RotSt) (t : List String) (implObs : String) : Option (RotSt ×
         let (st2, ms) := match m with
           | some m => st1.describe i m
           | none => (st1, "-")
-        let rot := if rotated then s!"{sd'.id}:0" else "-"
-        some (st2, s!"msg={ms} rot={rot}", "-")
+        if rotated then
+          let kref := sd'.slots (sd'.id % 4)
+          let (st3, kn) := st2.showKey kref
+          let (st4, sv) := st3.noteKey (implKeyNo ((implObs.splitOn "rot=").getLast!.splitOn ":")) kref
+          some (st4, s!"msg={ms} rot={sd'.id}:0:{kn}", sv)
+        else some (st2, s!"msg={ms} rot=-", "-")
   | ["rdeliver", m, s] =>
     match (m.drop 1).toString.toNat?, sideIdx s with
     | some mi, some i =>
@@ -69,7 +100,12 @@ def rotStep (st : RotSt) (t : List String) (implObs : String) : Option (RotSt ×
         let sd' := process sd msg st.fresh
         let st1 := { st with sides := st.sides.set i sd', fresh := st.fresh + 1,
                              sendId := if rotated then st.sendId.set i msg.id else st.sendId }
-        some (st1, s!"rot={if rotated then s!"{msg.id}:1" else "-"}", "-")
+        if rotated then
+          let kref := sd'.slots (msg.id % 4)
+          let (st2, kn) := st1.showKey kref
+          let (st3, sv) := st2.noteKey (implKeyNo ((implObs.splitOn "rot=").getLast!.splitOn ":")) kref
+          some (st3, s!"rot={msg.id}:1:{kn}", sv)
+        else some (st1, "rot=-", "-")
       | _, _ => some (st, "bad-op", "-")
     | _, _ => some (st, "bad-op", "-")
   | ["rdeliver-latest", s, k] =>
@@ -85,7 +121,12 @@ def rotStep (st : RotSt) (t : List String) (implObs : String) : Option (RotSt ×
           let sd' := process sd msg st.fresh
           let st1 := { st with sides := st.sides.set i sd', fresh := st.fresh + 1,
                                sendId := if rotated then st.sendId.set i msg.id else st.sendId }
-          some (st1, s!"m{mi} rot={if rotated then s!"{msg.id}:1" else "-"}", "-")
+          if rotated then
+            let kref := sd'.slots (msg.id % 4)
+            let (st2, kn) := st1.showKey kref
+            let (st3, sv) := st2.noteKey (implKeyNo ((implObs.splitOn "rot=").getLast!.splitOn ":")) kref
+            some (st3, s!"m{mi} rot={msg.id}:1:{kn}", sv)
+          else some (st1, s!"m{mi} rot=-", "-")
         | _, _ => some (st, "bad-op", "-")
     | _, _ => some (st, "bad-op", "-")
   | ["probe"] =>
@@ -107,18 +148,23 @@ def rotStep (st : RotSt) (t : List String) (implObs : String) : Option (RotSt ×
     | some i =>
       let start := st.nextFresh.getD i 0
       let idxs := (List.range (st.msgs.length - start)).map (· + start)
-      let (st', res) := idxs.foldl (fun (acc : RotSt × List String) mi =>
-        let (st, res) := acc
+      let implToks := (implObs.splitOn ",").map (·.splitOn ":")
+      let (st', res, sv) := idxs.foldl (fun (acc : RotSt × List String × String) mi =>
+        let (st, res, sv) := acc
         match st.msgs[mi]?, st.sides[i]? with
         | some (sender, msg), some sd =>
-          if sender ≠ 1 - i then (st, res) else
+          if sender ≠ 1 - i then (st, res, sv) else
           let rotated := decide (msg.id > sd.id) && msg.confirm.isSome && sd.proposed.isSome
           let sd' := process sd msg st.fresh
-          ({ st with sides := st.sides.set i sd', fresh := st.fresh + 1,
-                     sendId := if rotated then st.sendId.set i msg.id else st.sendId },
-           res ++ [s!"m{mi}:{if rotated then s!"{msg.id}:1" else "-"}"])
-        | _, _ => (st, res)) (st, [])
-      some ({ st' with nextFresh := st'.nextFresh.set i st'.msgs.length }, if res.isEmpty then "none" else ",".intercalate res, "-")
+          let st1 : RotSt := { st with sides := st.sides.set i sd', fresh := st.fresh + 1, sendId := if rotated then st.sendId.set i msg.id else st.sendId }
+          if rotated then
+            let kref := sd'.slots (msg.id % 4)
+            let (st2, kn) := st1.showKey kref
+            let (st3, v) := st2.noteKey ((implToks.find? (fun t => t.head? = some s!"m{mi}")).bind implKeyNo) kref
+            (st3, res ++ [s!"m{mi}:{msg.id}:1:{kn}"], worst sv v)
+          else (st1, res ++ [s!"m{mi}:-"], sv)
+        | _, _ => (st, res, sv)) (st, [], "-")
+      some ({ st' with nextFresh := st'.nextFresh.set i st'.msgs.length }, if res.isEmpty then "none" else ",".intercalate res, sv)
   | ["expect-advance"] =>
     -- C07 freshness: during a phase in which every rotation message got through, both sealing keys were replaced
     match st.markSend with
